@@ -19,6 +19,9 @@ any chunking of the plain body, and `pulled`/`eof` are not predicted (`-`).
 Output: `<res> st=<status|-> pulled=<n|-> eof=<0|1|-> osz=<n|->`.
 `jb` / `ue` = the public futures `JsonBody::<String>::new(..)` / `UrlEncoded::<{a}>::new(..)` used
 directly: `lim=dflt` ⇒ polled without `.limit()`, otherwise `.limit(n)` is applied.
+`via=svc` (Bytes/String/Json/Form only): the request goes through `test::init_service(App…)` +
+`call_service` with a real `h1::Payload`; only success (body length + hash) or the response status
+is observable: `ok:… st=- …` / `err st=<status>` with `pulled=* eof=* osz=*`.
 See `harness/src/props/c12.rs` for the implementation side.
 -/
 namespace ActixModel.Drv.C12
@@ -170,6 +173,9 @@ def runStream (ws : List String) (ex : String) : String :=
         | _ => "-"
       | _, _ => "-"
     else "-"
+  if (kv ws "via").getD "" == "svc" then
+    (if st == "-" then tok else "err") ++ " st=" ++ st ++ " pulled=* eof=* osz=*"
+  else
   tok ++ " st=" ++ st ++ " pulled=" ++ pl ++ " eof=" ++ eof ++ " osz=" ++ osz
 
 /-! multipart -/
@@ -233,11 +239,29 @@ def runFb (ws : List String) : String :=
   | .limitExceeded => "limit-exceeded next=1"
   | .streamErr => "stream-err next=0"
 
+/-- `ex=lim total=<n> mem=<n> field=<n|none> ops=<bytes:0|1,…>`: the public `Limits` driven call by
+call, continuing after refusals; output per call `<ok>@<total>,<memory>,<field|->` -/
+def runLimits (ws : List String) : String :=
+  let l0 : Limits := { total := kvNat ws "total" 0, memory := kvNat ws "mem" 0,
+                       field := ((kv ws "field").getD "none").toNat? }
+  let ops := ((kv ws "ops").getD "").splitOn "," |>.filter (· ≠ "")
+  let rec go (l : Limits) : List String → List String
+    | [] => []
+    | op :: rest =>
+      match op.splitOn ":" with
+      | [b, m] =>
+        let (l', ok) := tryConsume l (b.toNat?.getD 0) (m == "1")
+        ((if ok then "1" else "0") ++ "@" ++ toString l'.total ++ "," ++ toString l'.memory ++ "," ++
+          (match l'.field with | some f => toString f | none => "-")) :: go l' rest
+      | _ => go l rest
+  joinWith " " (go l0 ops)
+
 def run (line : String) : String :=
   let ws := words line
   match kv ws "ex" with
   | some "mp" => runMp ws
   | some "fb" => runFb ws
+  | some "lim" => runLimits ws
   | some ex => runStream ws ex
   | none => "bad-case"
 
